@@ -16,7 +16,13 @@ func ByNameSmart(a, b string) bool {
 	v0, err0 := strconv.ParseFloat(a, 64)
 	v1, err1 := strconv.ParseFloat(b, 64)
 	if err0 == nil && err1 == nil {
-		return v0 < v1
+		if v0 != v1 {
+			return v0 < v1
+		}
+		return a < b // same number, different spelling
+	}
+	if (err0 == nil) != (err1 == nil) { // numbers sort before text, which keeps the order transitive
+		return err0 == nil
 	}
 	return a < b
 }
